@@ -43,7 +43,10 @@ func ScanPngHeader(r io.ReadSeeker) (header meta.ExifHeader, err error) {
 
 		switch chunkType {
 		case "eXIf":
-			offset, _ := r.Seek(0, io.SeekCurrent)
+			offset, err := r.Seek(0, io.SeekCurrent)
+			if err != nil {
+				return header, err
+			}
 
 			// The chunk data is a TIFF header followed by the IFDs: the byte order
 			// and the first IFD offset are those stored in that header.
